@@ -61,8 +61,8 @@ M = [
      "replace removes only the first collider"),
     ("m11d", "C11", UT, "        if interval.end <= start or interval.start >= end:\n            continue",
      "        if interval.end < start or interval.start > end:\n            continue", "touching counts as overlap"),
-    ("m11e", "C11", PT, '"-".join([oldPoint.label, newPoint.label])', '"-".join([newPoint.label, oldPoint.label])',
-     "point merge new-old"),
+    ("m11e", "C11", PT, '"-".join([oldPoint.label for oldPoint in matchList] + [newPoint.label]),',
+     '"-".join([newPoint.label] + [oldPoint.label for oldPoint in matchList]),', "point merge new-old"),
     ("m11f", "C11", IT, "        self._entries.pop(self._entries.index(entry))",
      "        self._entries.pop([e.label for e in self._entries].index(entry.label))", "deleteEntry by label only"),
     ("m11g", "C11", IT,
@@ -242,8 +242,19 @@ def main():
     finally:
         sh(f"git -C /repo worktree remove --force {WT}")
         sh("rm -rf /tmp/dsim_mutants_out")
-    with open(os.path.join(VERIF, "tools", "mutants_result.json"), "w") as f:
-        json.dump(results, f, indent=1)
+    out = os.path.join(VERIF, "tools", "mutants_result.json")
+    if args.ids or args.only:  # partial run: merge into the existing table
+        try:
+            old = {r["id"]: r for r in json.load(open(out))}
+        except Exception:
+            old = {}
+        old.update({r["id"]: r for r in results})
+        order = [m[0] for m in M]
+        merged = [old[i] for i in order if i in old]
+    else:
+        merged = results
+    with open(out, "w") as f:
+        json.dump(merged, f, indent=1)
     # the evidence files were rewritten against mutants: regenerate them against the real tree is the caller's job
     missed = [r for r in results if r["status"] == "MISSED"]
     print(f"\n{len(results)} mutants: {sum(r['status']=='caught' for r in results)} caught, {len(missed)} missed, "
